@@ -715,12 +715,18 @@ def compare_csv(exp, text, wfields, wexclude, st):
     rows = list(csv.reader(io.StringIO(text, newline="")))
     want = []
     prev = None
+    hdr = None
     for e in exp:
         cols = asdict_keys(e, wfields, wexclude)
         if prev is None or prev != desc_key(e):
             prev = desc_key(e)
+            hdr = cols
             want.append(("h", cols, e))
-        want.append(("r", cols, e))
+        # a row is written under the last header: two grouped records with the same flat descriptor may list the same
+        # names in a different order (which member owns a name), the cells still go under their own column
+        if sorted(cols) != sorted(hdr):
+            raise Mismatch("harness: records with equal descriptors list different columns %r / %r" % (cols, hdr))
+        want.append(("r", hdr, e))
     if len(rows) != len(want):
         raise Mismatch("%d CSV rows in the output, expected %d (records %d)" % (len(rows), len(want), len(exp)))
     for i, (row, (kind, cols, e)) in enumerate(zip(rows, want)):
@@ -1417,7 +1423,7 @@ def nontrivial(ds, srcs, opt):
 def sweep(ctx, coq=True, first_only=True):
     """Run the whole correspondence on the implementation.  Returns (coq_cases, metas, problems, st)."""
     rnd = random.Random(ctx.seed)
-    nds = 4 if ctx.tier == "quick" else 16
+    nds = 3 if ctx.tier == "quick" else 16
     coq_cases, metas, problems = ([] if coq else None), [], []
     st = {}
     outdir = os.path.join(str(ctx.work), "out")
